@@ -1004,6 +1004,248 @@ def rust_type_syntax_part(check, reported_langs):
         sweep(check, lang, cases, reported_langs, part="rust-type-syntax", mans=mans)
 
 
+# ------------------------------------------------------------------------------------------ content of decorator / constraint lists
+
+DEC_SWIFT = ["Equatable", "Hashable", "Sendable", "Identifiable", "Comparable", "CustomStringConvertible"]
+DEC_KOTLIN = ["Serializable", "Parcelize", "Keep", "Immutable"]
+DEC_TYPE_NAMES = ["Settings", "Point", "Shape", "Marker", "Level", "Handle", "Envelope", "Choice", "Token", "Series", "Account", "Reading"]
+# texts a Swift parser must refuse: the recogniser is tried on them before its verdicts on the implementation's output are used
+DEC_ORACLE_SELF_TEST = [
+    "public struct S: Codable,  {\n    public let a: UInt32\n\n    public init(a: UInt32) {\n        self.a = a\n    }\n}\n",
+    "public struct S: Codable, , Equatable {\n    public let a: UInt32\n\n    public init(a: UInt32) {\n        self.a = a\n    }\n}\n",
+    "public struct S:  {\n    public let a: UInt32\n\n    public init(a: UInt32) {\n        self.a = a\n    }\n}\n",
+    "public struct S: , Codable {\n    public let a: UInt32\n\n    public init(a: UInt32) {\n        self.a = a\n    }\n}\n",
+    "public enum E: String, Codable,  {\n    case a = \"A\"\n}\n",
+    "public struct S<T: >: Codable {\n    public let a: T\n\n    public init(a: T) {\n        self.a = a\n    }\n}\n",
+    "public struct S<T: Codable & >: Codable {\n    public let a: T\n\n    public init(a: T) {\n        self.a = a\n    }\n}\n",
+    "public struct CodableVoid: Codable,  {}\n",
+]
+
+
+def dec_entries(rng, own, always, defaults):
+    """the entries of one list and the name of its shape.  `own`: names only the list brings; `always`: what the back end adds on
+    its own (`Codable` / `JvmInline` is the one it looks for); `defaults`: the configuration's default entries"""
+    others = rng.sample(own, rng.randint(1, 4))
+    shapes = ["only-the-entry-the-back-end-adds", "that-entry-twice", "that-entry-among-others", "one-to-four-other-entries", "an-entry-twice"]
+    if defaults:
+        shapes += ["only-default-entries-of-the-configuration", "default-entries-among-others"]
+    shape = rng.choice(shapes)
+    if shape == "only-the-entry-the-back-end-adds":
+        es = [always]
+    elif shape == "that-entry-twice":
+        es = [always, always]
+    elif shape == "that-entry-among-others":
+        es = list(others)
+        es.insert(rng.randint(0, len(es)), always)
+    elif shape == "one-to-four-other-entries":
+        es = others
+    elif shape == "an-entry-twice":
+        es = others + [rng.choice(others)]
+        rng.shuffle(es)
+    elif shape == "only-default-entries-of-the-configuration":
+        es = rng.sample(defaults, rng.randint(1, len(defaults))) + ([always] if rng.random() < 0.4 else [])
+        rng.shuffle(es)
+    else:
+        es = others[:2] + rng.sample(defaults, rng.randint(1, len(defaults)))
+        rng.shuffle(es)
+    return es, shape
+
+
+def dec_spelled(rng, entries, feats, what):
+    """the list as the string of the attribute: separators with and without blanks, blanks at both ends"""
+    sep = rng.choice([", ", ", ", ",", " , ", ",  ", " ,"])
+    text = sep.join(entries)
+    if rng.random() < 0.25:
+        text = rng.choice([" ", "  "]) + text
+        feats["%s:blank-in-front" % what] = feats.get("%s:blank-in-front" % what, 0) + 1
+    if rng.random() < 0.25:
+        text = text + rng.choice([" ", "  "])
+        feats["%s:blank-at-the-end" % what] = feats.get("%s:blank-at-the-end" % what, 0) + 1
+    return text
+
+
+def dec_attributes(rng, lang, cfg, generics, feats, empty_entry):
+    """the `#[typeshare(..)]` attributes of one item: a Swift decorator list, generic constraints, a Kotlin decorator list.
+    `empty_entry`: put an empty entry into one of the lists (empty string, trailing / leading / doubled comma)"""
+    def feat(k):
+        feats[k] = feats.get(k, 0) + 1
+    args = []
+    p_swift, p_kotlin = (0.85, 0.15) if lang == "swift" else (0.15, 0.85) if lang == "kotlin" else (0.5, 0.5)
+    if rng.random() < p_swift:
+        es, shape = dec_entries(rng, DEC_SWIFT, "Codable", [d.strip() for d in cfg.get("default_decorators", []) if d.strip() != "Codable"])
+        feat("swift-list:" + shape)
+        feat("swift-list:%d-entries" % len(es))
+        text = dec_spelled(rng, es, feats, "swift-list")
+        if empty_entry:
+            text = rng.choice(["", " ", text + ",", text + ", ", "," + text, text.replace(",", ",,", 1) if "," in text else text + ",,"])
+        if len(es) > 1 and not empty_entry and rng.random() < 0.2:
+            # the list given in two pieces: two attributes, or the key twice in one attribute
+            cut = rng.randint(1, len(es) - 1)
+            a, b = dec_spelled(rng, es[:cut], feats, "swift-list"), dec_spelled(rng, es[cut:], feats, "swift-list")
+            feat("swift-list:in-two-pieces")
+            args.append(["swift = \"%s\"" % a, "swift = \"%s\"" % b])
+        else:
+            args.append(["swift = \"%s\"" % text])
+    if generics and rng.random() < (0.6 if lang == "swift" else 0.2):
+        parts = []
+        for g in rng.sample(generics, rng.randint(1, len(generics))):
+            dflt = [x.strip() for d in cfg.get("default_generic_constraints", []) for x in d.split("&") if x.strip() != "Codable"]
+            es, shape = dec_entries(rng, DEC_SWIFT, "Codable", dflt)
+            feat("swiftGenericConstraints:" + shape)
+            parts.append(rng.choice(["%s: %s", "%s:%s", "%s: %s "]) % (g, rng.choice([" & ", "&", " &  "]).join(es)))
+        if rng.random() < 0.1:
+            parts.append("V: Equatable")        # a parameter the item does not have
+            feat("swiftGenericConstraints:unknown-parameter")
+        args.append(["swiftGenericConstraints = \"%s\"" % rng.choice([", ", ","]).join(parts)])
+    if rng.random() < p_kotlin:
+        es, shape = dec_entries(rng, DEC_KOTLIN, "JvmInline", [])
+        feat("kotlin-list:" + shape)
+        feat("kotlin-list:%d-entries" % len(es))
+        text = dec_spelled(rng, es, feats, "kotlin-list")
+        if empty_entry and not args:
+            text = rng.choice(["", " ", text + ",", "," + text])
+        args.append(["kotlin = \"%s\"" % text])
+    # layout: everything inside the one marker attribute, or the marker followed by one attribute per key
+    flat = [x for a in args for x in a]
+    if not flat:
+        return "#[typeshare]\n"
+    layout = rng.choice(["one-attribute", "one-attribute", "marker-then-one-attribute-per-entry", "one-attribute-per-entry"])
+    feat("attribute-layout:" + layout)
+    if layout == "one-attribute":
+        return "#[typeshare(%s)]\n" % ", ".join(flat)
+    lines = ["#[typeshare(%s)]\n" % x for x in flat]
+    return ("#[typeshare]\n" if layout.startswith("marker") else "") + "".join(lines)
+
+
+def dec_item(rng, lang, cfg, name, feats, empty_entry=False):
+    """one item with decorator / constraint lists: source text"""
+    form = rng.choice(["struct", "struct", "struct", "unit-struct", "empty-struct", "newtype", "unit-enum", "unit-enum", "algebraic-enum-with-struct-variants",
+                       "algebraic-enum-with-struct-variants", "algebraic-enum-without-struct-variants", "alias", "generic-struct", "generic-struct",
+                       "generic-algebraic-enum", "generic-alias"])
+    feats["on:" + form] = feats.get("on:" + form, 0) + 1
+    generics = [] if not form.startswith("generic") else rng.choice([["T"], ["T"], ["T", "U"]])
+    g = "<%s>" % ", ".join(generics) if generics else ""
+    attrs = dec_attributes(rng, lang, cfg, generics, feats, empty_entry)
+    leaf = lambda: rng.choice(["u32", "String", "bool", "Option<String>", "Vec<u8>", "f64", "()", "Option<()>"])
+    if form in ("struct", "generic-struct"):
+        fs = ["    pub %s: %s,\n" % (f, leaf()) for f in rng.sample(RS_FIELD_NAMES, rng.randint(1, 3))]
+        fs += ["    pub g%d: %s,\n" % (i, rng.choice(["%s", "Vec<%s>", "Option<%s>"]) % t) for i, t in enumerate(generics)]
+        return "%spub struct %s%s {\n%s}\n" % (attrs, name, g, "".join(fs))
+    if form == "unit-struct":
+        return "%spub struct %s;\n" % (attrs, name)
+    if form == "empty-struct":
+        return "%spub struct %s {}\n" % (attrs, name)
+    if form == "newtype":
+        return "%spub struct %s(pub %s);\n" % (attrs, name, rng.choice(["String", "u32", "Vec<String>"]))
+    if form == "unit-enum":
+        vs = rng.sample(["Low", "Mid", "High", "Off", "Auto"], rng.randint(1, 4))
+        return "%spub enum %s {\n%s}\n" % (attrs, name, "".join("    %s,\n" % v for v in vs))
+    if form in ("alias", "generic-alias"):
+        return "%spub type %s%s = %s;\n" % (attrs, name, g, "Vec<%s>" % generics[0] if generics else rng.choice(["String", "Vec<u32>", "Option<String>"]))
+    vs = []
+    for i, v in enumerate(rng.sample(["Circle", "Square", "Line", "Dot", "Path"], rng.randint(2, 4))):
+        k = rng.choice(["struct", "tuple", "unit"]) if i else "struct"
+        if form == "algebraic-enum-without-struct-variants" and k == "struct":
+            k = "tuple"
+        if k == "struct":
+            vs.append("    %s { %s: %s, extra: %s },\n" % (v, rng.choice(RS_FIELD_NAMES), generics[0] if generics and rng.random() < 0.6 else leaf(), leaf()))
+        elif k == "tuple":
+            vs.append("    %s(%s),\n" % (v, generics[-1] if generics and rng.random() < 0.6 else rng.choice(["u32", "String", "Vec<u8>"])))
+        else:
+            vs.append("    %s,\n" % v)
+    return "%s#[serde(tag = \"type\", content = \"content\")]\npub enum %s%s {\n%s}\n" % (attrs, name, g, "".join(vs))
+
+
+def dec_config(rng, lang, feats):
+    """a configuration whose default lists have the same shapes: empty, only `Codable`, `Codable` twice, an entry twice, one to four"""
+    cfg = config_for(rng, lang)
+    if lang != "swift":
+        return cfg
+
+    def lst(key, amp):
+        shape = rng.choice(["empty", "empty", "only-Codable", "Codable-twice", "Codable-among-others", "an-entry-twice", "one-to-four-entries", "one-to-four-entries"])
+        feats["configuration-%s:%s" % (key, shape)] = feats.get("configuration-%s:%s" % (key, shape), 0) + 1
+        others = rng.sample(DEC_SWIFT, rng.randint(1, 4))
+        if amp and rng.random() < 0.4 and len(others) > 1:
+            others = [others[0] + rng.choice([" & ", "&"]) + others[1]] + others[2:]
+        es = {"empty": [], "only-Codable": ["Codable"], "Codable-twice": ["Codable", "Codable"], "Codable-among-others": others + ["Codable"],
+              "an-entry-twice": others + [others[0]], "one-to-four-entries": others}[shape]
+        es = list(es)
+        rng.shuffle(es)
+        return es
+    cfg["default_decorators"] = lst("default_decorators", False)
+    cfg["default_generic_constraints"] = lst("default_generic_constraints", True)
+    cfg["codablevoid_constraints"] = lst("codablevoid_constraints", False)
+    return cfg
+
+
+def dec_case(rng, lang, empty_entry=False):
+    feats = {}
+    cfg = dec_config(rng, lang, feats)
+    names = rng.sample(DEC_TYPE_NAMES, rng.randint(1, 4))
+    items = [dec_item(rng, lang, cfg, n, feats, empty_entry=empty_entry and i == 0) for i, n in enumerate(names)]
+    return dict(lang=lang, cfg=cfg, texts=["\n".join(items)], items=items, feats=feats, multi=False, names=set(),
+                about="the items carry decorator / constraint lists: %s" % ", ".join("`%s`" % a for a in re.findall(r"#\[typeshare\((.*)\)\]", "\n".join(items))[:6]))
+
+
+def dec_smaller(check, c):
+    """the first item of the case that alone still gets an output the oracle rejects without a known class"""
+    for it in c["items"]:
+        small = dict(c, texts=[it], items=[it], smaller=None)
+        ma = rs_run(c["lang"], [small])[0]
+        ra = runner([small["r"]])[0]
+        if not isinstance(ra.get("ok"), dict):
+            continue
+        lex = {name: model([[S("lexok"), S(c["lang"]), text]], with_unicode=False)[0].get("ok") for name, text in ra["ok"].items()}
+        bad = judge(check, small, ra, lex)
+        if bad:
+            small["about"] = "reduced to one item of the generated case; its attributes: %s" % ", ".join("`%s`" % a for a in re.findall(r"#\[typeshare.*\]", it))
+            return small, bad[0], ma, ma is None or ma == l2.norm(ra)
+    return None
+
+
+def decorator_lists_part(check, reported_langs):
+    """the *content* of decorator and constraint lists (the main sweep only ever writes lists with at least one entry of their
+    own).  The dimension: the type-level lists `#[typeshare(swift = "..")]`, `#[typeshare(swiftGenericConstraints = "..")]` and
+    `#[typeshare(kotlin = "..")]` - holding only the entry the back end adds anyway (`Codable`, for Kotlin the one it looks for,
+    `JvmInline`), that entry twice, that entry at any place among one to four others, only entries the configuration's defaults
+    already have, an entry twice, one to four entries; spelled with and without blanks around the commas / ampersands and at the
+    ends, in one attribute, one attribute per key, or in two pieces - on structs with named fields, unit, empty and newtype
+    structs, unit enums, algebraic enums with and without struct variants (whose `<Enum><Variant>Inner` structs inherit the
+    decorators), aliases, and generic structs / enums / aliases with one or two parameters; crossed with configurations whose
+    default_decorators / default_generic_constraints / codablevoid_constraints are empty, only `Codable`, `Codable` twice, an
+    entry twice, one to four entries (members of type `()` bring in `CodableVoid`).  Swift and Kotlin in depth, the four back ends
+    that ignore the lists with fewer cases.  Demanded: the implementation's output is accepted by the language's recogniser - in
+    particular an inheritance clause or a constraint list never has an empty entry (`: Codable,  {`, `:  {`, `<T: >`) - and the
+    text equals the model's on the translated source.
+    Lists that themselves have an empty entry (`swift = ""`, a trailing, leading or doubled comma) are outside the supported
+    input (typeshare copies the empty entry); the oracle's verdicts on them are counted, not demanded"""
+    for t in DEC_ORACLE_SELF_TEST:
+        if syn.check("swift", t)[0] is None:
+            raise InfraError("the Swift recogniser accepts a declaration with an empty entry in its inheritance clause / constraint list:\n" + t)
+    sizes = {"swift": 4000 if check.thorough else 400, "kotlin": 1200 if check.thorough else 120}
+    for lang in LANGS:
+        n = sizes.get(lang, 250 if check.thorough else 25)
+        cases = [dict(dec_case(check.rng, lang), smaller=dec_smaller) for _ in range(n)]
+        mans = rs_run(lang, cases)
+        for c in cases:
+            check.count("decorator-lists:translator-%s" % c["translated"].split(":")[0].replace(" ", "-"))
+            for k, v in c["feats"].items():
+                check.count("decorator-lists:" + k, v)
+        sweep(check, lang, cases, reported_langs, part="decorator-lists", mans=mans)
+    # lists with an empty entry: observed, not demanded
+    for lang in ("swift", "kotlin"):
+        cases = [dec_case(check.rng, lang, empty_entry=True) for _ in range(60 if check.thorough else 12)]
+        for c in cases:
+            c["r"] = __import__("corpus").runner_req(lang, c["cfg"], c["texts"][0])
+        for c, a in zip(cases, runner([c["r"] for c in cases])):
+            check.saw(("decorator-lists-empty-entry", lang, json.dumps(c["cfg"], sort_keys=True), c["texts"][0]), nontrivial=isinstance(a.get("ok"), dict))
+            verdicts = [syn.check(lang, text)[0] for text in a["ok"].values()] if isinstance(a.get("ok"), dict) else None
+            check.count("decorator-lists:list-with-an-empty-entry(outside-the-supported-input):%s-%s"
+                        % (lang, "input-rejected" if verdicts is None else "output-rejected-by-the-oracle" if any(v is not None for v in verdicts)
+                           else "output-accepted"))
+
+
 # ------------------------------------------------------------------------------------------ python import (thorough)
 
 def stub_modules():
@@ -1226,7 +1468,11 @@ def run(check):
                   "letters, non-ASCII digits; 1 case in 5 also marks, letter numbers, connectors, middle dot).  Rust-type-syntax part: source "
                   "text whose type expressions instantiate user types with lifetime arguments, const generic arguments (literals, blocks, bare "
                   "paths), bindings, type arguments or nothing, in every order and spelling, at field / payload / alias / newtype / serialized_as / "
-                  "generic-argument positions; model input = the translated source.  non-trivial = the implementation produced at least one output file "
+                  "generic-argument positions; model input = the translated source.  Decorator-lists part: source text whose type-level "
+                  "swift / swiftGenericConstraints / kotlin lists hold only the entry the back end adds itself, that entry twice or among others, "
+                  "only default entries, repeated entries, one to four entries, in every spelling, on every item kind incl. generic ones and enums "
+                  "with struct variants, crossed with default_decorators / default_generic_constraints / codablevoid_constraints of the same shapes.  "
+                  "non-trivial = the implementation produced at least one output file "
                   "that went through the oracle")
     genmod.DOC_WORDS = list(genmod.DOC_WORDS) + DOC_EXTRA
     genmod.VARIANT_WORDS = list(genmod.VARIANT_WORDS) + VARIANT_EXTRA
@@ -1238,6 +1484,7 @@ def run(check):
         sweep(check, lang, make_cases(rng, lang, per_lang, check.thorough), reported_langs)
     unicode_identifiers_part(check, reported_langs)
     rust_type_syntax_part(check, reported_langs)
+    decorator_lists_part(check, reported_langs)
     replay_witnesses(check)
     replay_repaired(check)
     replay_not_full(check)
